@@ -25,8 +25,12 @@ import (
 
 	"go.dedis.ch/kyber/v4"
 	"go.dedis.ch/kyber/v4/group/edwards25519"
+	"go.dedis.ch/kyber/v4/group/edwards25519vartime"
 	"go.dedis.ch/kyber/v4/group/p256"
 	"go.dedis.ch/kyber/v4/pairing"
+	"go.dedis.ch/kyber/v4/pairing/bls12381/circl"
+	"go.dedis.ch/kyber/v4/pairing/bls12381/gnark"
+	"go.dedis.ch/kyber/v4/pairing/bls12381/kilic"
 	"go.dedis.ch/kyber/v4/pairing/bn254"
 	"go.dedis.ch/kyber/v4/pairing/bn256"
 	"go.dedis.ch/kyber/v4/proof/dleq"
@@ -202,20 +206,69 @@ type fullSuite interface {
 	RandomStream() cipher.Stream
 }
 
-func suiteInstance(config string, s fullSuite, grp kyber.Group, canPick bool) instance {
+// newPairingSuite constructs a NEW pairing suite object (nothing has been called on it).
+func newPairingSuite(key string) pairing.Suite {
+	switch key {
+	case "bn256":
+		return bn256.NewSuite()
+	case "bn254":
+		return bn254.NewSuite()
+	case "kilic":
+		return kilic.NewBLS12381Suite()
+	case "circl":
+		return circl.NewSuite()
+	case "gnark":
+		return gnark.NewSuite()
+	}
+	panic("unknown pairing suite " + key)
+}
+
+// newGroup constructs a NEW group / suite object for the PubPoly configurations.
+func newGroup(name string) kyber.Group {
+	switch name {
+	case "ed25519":
+		return edwards25519.NewBlakeSHA256Ed25519()
+	case "edvt-proj":
+		return new(edwards25519vartime.ProjectiveCurve).Init(edwards25519vartime.ParamEd25519(), false)
+	case "p256":
+		return p256.NewBlakeSHA256P256()
+	case "bn256-g2":
+		return bn256.NewSuite().G2()
+	case "kilic-g1":
+		return kilic.NewBLS12381Suite().G1()
+	}
+	panic("unknown group " + name)
+}
+
+// suiteInstance: mk constructs a NEW suite object; grp derives the group from it (for pairing suites that
+// is itself a factory call on the suite and is made inside the operations).
+//
+//	rep "fresh": per repetition a new suite; NO call on it before the barrier; every operation makes its own
+//	             first calls (RandomStream(), Hash(), XOF(), Point()/Scalar()) concurrently with the others and
+//	             draws from the stream it was handed
+//	rep "warm":  RandomStream() was called once by the constructing goroutine; that one stream object is shared
+func suiteInstance(config string, mk func() fullSuite, grp func(fullSuite) kyber.Group, canPick bool) instance {
 	return instance{kind: "suite", config: config, cost: 1, build: func(rep string) ops {
-		rs := s.RandomStream() // the stream object itself is shared
+		s := mk()
+		getStream := func() cipher.Stream { return s.RandomStream() }
+		if rep == "warm" {
+			rs := s.RandomStream()
+			getStream = func() cipher.Stream { return rs }
+		}
 		o := ops{
 			"RandomStream": func() string {
+				rs := getStream()
 				b := make([]byte, 32)
 				rs.XORKeyStream(b, b)
+				c := make([]byte, 5)
+				rs.XORKeyStream(c, c)
 				if bytes.Equal(b, make([]byte, 32)) {
 					return "all-zero"
 				}
-				return "32 bytes"
+				return "32+5 bytes"
 			},
 			"PickScalar": func() string {
-				x := grp.Scalar().Pick(rs)
+				x := grp(s).Scalar().Pick(getStream())
 				if _, err := x.MarshalBinary(); err != nil {
 					return "err"
 				}
@@ -232,18 +285,21 @@ func suiteInstance(config string, s fullSuite, grp kyber.Group, canPick bool) in
 				x.Read(b)
 				return hex.EncodeToString(b)
 			},
+			"NewScalar": func() string { return hx(grp(s).Scalar().SetInt64(5).MarshalBinary()) },
+			"NewPoint":  func() string { g := grp(s); return hx(g.Point().Mul(g.Scalar().SetInt64(3), nil).MarshalBinary()) },
 		}
 		if canPick {
 			o["PickPoint"] = func() string {
-				p := grp.Point().Pick(rs)
+				p := grp(s).Point().Pick(getStream())
 				if _, err := p.MarshalBinary(); err != nil {
 					return "err"
 				}
 				return "point"
 			}
 			o["NewKeyPair"] = func() string {
-				x := grp.Scalar().Pick(s.RandomStream())
-				p := grp.Point().Mul(x, nil)
+				g := grp(s)
+				x := g.Scalar().Pick(s.RandomStream())
+				p := g.Point().Mul(x, nil)
 				if _, err := p.MarshalBinary(); err != nil {
 					return "err"
 				}
@@ -269,10 +325,17 @@ func pairingInstance(key string, seed int64) instance {
 	a2, b2 := s.G2().Point().Mul(k2, nil), s.G2().Point().Mul(k1, nil)
 	e1, _ := s.G1().Point().Add(a1, b1).MarshalBinary()
 	e2, _ := s.G2().Point().Add(a2, b2).MarshalBinary()
+	long := s
 	return instance{kind: "pairing", config: key, cost: 3, build: func(rep string) ops {
 		var p, q kyber.Point
-		if rep == "decoded" {
-			p, q = s.G1().Point(), s.G2().Point()
+		s := long
+		if rep == "fresh" {
+			// a NEW suite object; the operands are decoded through the long-lived one, so the first calls on the
+			// new suite (Pair, ValidatePairing, G1()/G2() factories) are made by the goroutines after the barrier
+			s = newPairingSuite(key)
+		}
+		if rep == "decoded" || rep == "fresh" {
+			p, q = long.G1().Point(), long.G2().Point()
 			if err := p.UnmarshalBinary(e1); err != nil {
 				panic(err)
 			}
@@ -285,8 +348,18 @@ func pairingInstance(key string, seed int64) instance {
 		return ops{
 			"Pair":            func() string { return hx(s.Pair(p, q).MarshalBinary()) },
 			"ValidatePairing": func() string { return fmt.Sprint(s.ValidatePairing(p, q, p, q), s.ValidatePairing(p, q, a1, q)) },
-			"MarshalG1":       func() string { return hx(p.MarshalBinary()) },
-			"MarshalG2":       func() string { return hx(q.MarshalBinary()) },
+			"MarshalG1": func() string {
+				if rep == "fresh" { // factories of the new suite
+					return hx(s.G1().Point().Set(p).MarshalBinary())
+				}
+				return hx(p.MarshalBinary())
+			},
+			"MarshalG2": func() string {
+				if rep == "fresh" {
+					return hx(s.G2().Point().Set(q).MarshalBinary())
+				}
+				return hx(q.MarshalBinary())
+			},
 		}
 	}}
 }
@@ -308,6 +381,7 @@ func bdnMaskInstance(key string, seed int64) instance {
 		pubs = append(pubs, p)
 	}
 	return instance{kind: "bdnmask", config: key, cost: 3, build: func(rep string) ops {
+		fs := newPairingSuite(key) // rep "fresh": the suite used by the operations is new as well
 		m, err := bdn.NewMask(s.G2(), pubs, nil)
 		if err != nil {
 			panic(err)
@@ -330,7 +404,7 @@ func bdnMaskInstance(key string, seed int64) instance {
 			"CountEnabled":      func() string { return fmt.Sprint(m.CountEnabled(), m.CountTotal(), m.Len()) },
 			"IndexOfNthEnabled": func() string { return fmt.Sprint(m.IndexOfNthEnabled(1), m.NthEnabledAtIndex(3)) },
 			"AggregatePublicKeys": func() string {
-				p, err := bdn.AggregatePublicKeys(s, m)
+				p, err := bdn.AggregatePublicKeys(fs, m)
 				if err != nil {
 					return "err:" + err.Error()
 				}
@@ -393,6 +467,7 @@ func cosiInstance(seed int64) instance {
 		panic(err)
 	}
 	return instance{kind: "cosimask", config: "ed25519", cost: 1, build: func(rep string) ops {
+		suite := edwards25519.NewBlakeSHA256Ed25519() // rep "fresh": a new suite object per repetition
 		m, err := cosi.NewMask(suite, pubs, nil)
 		if err != nil {
 			panic(err)
@@ -428,7 +503,7 @@ func pubPolyInstance(name string, seed int64) instance {
 		for i := range commits {
 			cs[i] = commits[i].Clone()
 		}
-		pub := share.NewPubPoly(g.Group, base, cs)
+		pub := share.NewPubPoly(newGroup(name), base, cs) // rep "fresh": a new group / suite object behind the polynomial
 		pub2 := pri.Commit(base)
 		return ops{
 			"Eval": func() string { s := pub.Eval(2); return fmt.Sprint(s.I) + hx(s.V.MarshalBinary()) },
@@ -484,7 +559,13 @@ func plainVerifier(name string, seed int64) instance {
 			if err := key.UnmarshalBinary(enc); err != nil {
 				panic(err)
 			}
-			return func(m []byte) error { return schnorr.Verify(s, key, m, sig) }, key
+			// rep "fresh": a new suite and a new scheme object per repetition
+			var fs schnorr.Suite = p256.NewBlakeSHA256P256()
+			if name == "schnorr/ed25519" {
+				fs = edwards25519.NewBlakeSHA256Ed25519()
+			}
+			sch := schnorr.NewScheme(fs)
+			return func(m []byte) error { return sch.Verify(key, m, sig) }, key
 		})
 	case "eddsa":
 		e := eddsa.NewEdDSA(stream(seed, "eddsa"))
@@ -517,11 +598,12 @@ func plainVerifier(name string, seed int64) instance {
 			if err := k.UnmarshalBinary(eG); err != nil {
 				panic(err)
 			}
+			fs := edwards25519.NewBlakeSHA256Ed25519() // rep "fresh": a new suite object per repetition
 			return func(m []byte) error {
 				if bytes.Equal(m, msg) {
-					return pr.Verify(s, G, H, k, xH)
+					return pr.Verify(fs, G, H, k, xH)
 				}
-				return pr.Verify(s, G, H, k, G)
+				return pr.Verify(fs, G, H, k, G)
 			}, k
 		})
 	}
@@ -550,7 +632,8 @@ func blsVerifier(sk string, seed int64, useBdn bool) instance {
 			if err := key.UnmarshalBinary(enc); err != nil {
 				panic(err)
 			}
-			return func(m []byte) error { return bdn.Verify(s, key, m, bsig) }, key
+			fs := newPairingSuite(sk) // rep "fresh"
+			return func(m []byte) error { return bdn.Verify(fs, key, m, bsig) }, key
 		})
 	}
 	sig, err := scheme.Sign(x, vmsg)
@@ -558,7 +641,7 @@ func blsVerifier(sk string, seed int64, useBdn bool) instance {
 		panic(err)
 	}
 	return verifier("bls/"+sk, 3, func() (func([]byte) error, kyber.Point) {
-		sch := bls.NewSchemeOnG1(s)
+		sch := bls.NewSchemeOnG1(newPairingSuite(sk)) // rep "fresh": new suite, new scheme object
 		key := s.G2().Point()
 		if err := key.UnmarshalBinary(enc); err != nil {
 			panic(err)
@@ -599,16 +682,26 @@ func registry(seed int64) []entry {
 			out = append(out, entry{"scalar", g.ScalarTy, func() instance { return scalarInstance(name) }})
 		}
 	}
+	self := func(s fullSuite) kyber.Group { return s.(kyber.Group) }
 	out = append(out,
 		entry{"suite", "ed25519", func() instance {
-			s := edwards25519.NewBlakeSHA256Ed25519()
-			return suiteInstance("ed25519", s, s, true)
+			return suiteInstance("ed25519", func() fullSuite { return edwards25519.NewBlakeSHA256Ed25519() }, self, true)
 		}},
-		entry{"suite", "p256", func() instance { s := p256.NewBlakeSHA256P256(); return suiteInstance("p256", s, s, true) }},
-		entry{"suite", "qr512", func() instance { s := p256.NewBlakeSHA256QR512(); return suiteInstance("qr512", s, s, true) }},
-		entry{"suite", "bn256-g1", func() instance { s := bn256.NewSuiteG1(); return suiteInstance("bn256-g1", s, s, true) }},
-		entry{"suite", "bn256-g2", func() instance { s := bn256.NewSuiteG2(); return suiteInstance("bn256-g2", s, s, true) }},
-		entry{"suite", "bn254-g1", func() instance { s := bn254.NewSuiteG1(); return suiteInstance("bn254-g1", s, s, true) }},
+		entry{"suite", "p256", func() instance {
+			return suiteInstance("p256", func() fullSuite { return p256.NewBlakeSHA256P256() }, self, true)
+		}},
+		entry{"suite", "qr512", func() instance {
+			return suiteInstance("qr512", func() fullSuite { return p256.NewBlakeSHA256QR512() }, self, true)
+		}},
+		entry{"suite", "bn256-g1", func() instance {
+			return suiteInstance("bn256-g1", func() fullSuite { return bn256.NewSuiteG1() }, self, true)
+		}},
+		entry{"suite", "bn256-g2", func() instance {
+			return suiteInstance("bn256-g2", func() fullSuite { return bn256.NewSuiteG2() }, self, true)
+		}},
+		entry{"suite", "bn254-g1", func() instance {
+			return suiteInstance("bn254-g1", func() fullSuite { return bn254.NewSuiteG1() }, self, true)
+		}},
 	)
 	seen := map[string]bool{}
 	for _, g := range groups.All() {
@@ -619,8 +712,8 @@ func registry(seed int64) []entry {
 		key := g.SuiteKey
 		if key == "kilic" || key == "circl" || key == "gnark" {
 			out = append(out, entry{"suite", key, func() instance {
-				s := groups.ByName(key + "-g1").Suite
-				return suiteInstance(key, s, s.G1(), true)
+				return suiteInstance(key, func() fullSuite { return newPairingSuite(key) },
+					func(s fullSuite) kyber.Group { return s.(pairing.Suite).G1() }, true)
 			}})
 		}
 		out = append(out, entry{"pairing", key, func() instance { return pairingInstance(key, seed) }})
